@@ -193,6 +193,9 @@ def _tools():
     T["merge"] = (3, 3, lambda S, n: A.merge(*S), "iter", {})
     T["merge_key_reverse"] = (2, 2, lambda S, n: A.merge(*S, key=lambda x: -x.key, reverse=True), "iter", {})
     T["groupby"] = (1, 1, None, "groupby", {})
+    # no key function: the key of a group IS one of its items; every group read to its end
+    T["groupby_nokey"] = (1, 4, None, "groupby_nokey", {"runs": 3})
+    T["groupby_identity_key"] = (1, 4, None, "groupby_nokey", {"runs": 1, "identity": True})
     T["groupby_failing_key"] = (1, 1, None, "groupby_failing_key", {})
     T["iter_sentinel"] = (1, 0, None, "iter_sentinel", {})
     T["all"] = (1, 0, lambda S, n: A.all(S[0]), "agg", {})
@@ -239,6 +242,8 @@ def run_tool(case, stats):
         make = lambda i: (W(i), W(i))  # noqa: E731
     if opt.get("falsy"):
         make = lambda i: W(i, truth=False)  # noqa: E731
+    if opt.get("runs"):
+        make = lambda i: W(i // opt["runs"])  # noqa: E731 - runs of equal items
     streams = [Stream(census, n if not (opt.get("uneven") and s) else n // 2, make, f"s{s}") for s in range(nsrc)]
     if opt.get("pages"):
         streams = [PageStream(census, n, 5, sync_pages=opt["pages"] == "sync")]
@@ -256,6 +261,16 @@ def run_tool(case, stats):
                     del item
                     census.sample("after group item")
                 del group
+        elif kind == "groupby_nokey":
+            gb = A.groupby(streams[0], key=(lambda x: x)) if opt.get("identity") else A.groupby(streams[0])
+            async for key, group in gb:
+                del key
+                async for item in group:
+                    produced["n"] += 1
+                    del item
+                    census.sample("after group item")
+                del group
+                census.sample("after a group was read to its end")
         elif kind == "groupby_failing_key":
             # a key that fails for every 10th item; the consumer catches the error and carries on
             # (groupby is class based and survives it) - whatever happens to those items, they must not pile up
